@@ -86,12 +86,6 @@ func (fr *frame) call(x *ssa.Call, st *State, pos string) Value {
 				return v
 			}
 		}
-		if ct := c.e.Contracts.ByKey[key]; ct != nil {
-			if rt, ok := recv.(*Term); ok {
-				c.oblige(st, "nil", c.f.Not(c.f.Eq(c.f.IfTyp(rt), c.f.Int(0))), pos, "method call on nil interface")
-			}
-			return c.byContract(ct, cc.Signature(), args, st, pos)
-		}
 		// devirtualise when the dynamic type is syntactically known
 		if rt, ok := recv.(*Term); ok && rt.op == "mkIf" && rt.args[0].ival != nil {
 			id := int(rt.args[0].ival.Int64())
@@ -110,6 +104,73 @@ func (fr *frame) call(x *ssa.Call, st *State, pos string) Value {
 					return fr.staticCall(x, m, args, nil, st, pos)
 				}
 			}
+		}
+		// devirtualise by cases when the receiver is a join of values of syntactically known dynamic types
+		if rt, ok := recv.(*Term); ok && rt.op == "ite" {
+			type leaf struct {
+				guard *Term
+				v     *Term
+			}
+			var leaves []leaf
+			okAll := true
+			var walk func(t, g *Term)
+			walk = func(t, g *Term) {
+				if !okAll {
+					return
+				}
+				switch {
+				case t.op == "ite" && len(t.args) == 3:
+					walk(t.args[1], c.f.And(g, t.args[0]))
+					walk(t.args[2], c.f.And(g, c.f.Not(t.args[0])))
+				case t.op == "mkIf" && t.args[0].ival != nil && t.args[0].ival.Sign() > 0:
+					leaves = append(leaves, leaf{g, t})
+				default:
+					okAll = false
+				}
+			}
+			walk(rt, c.f.True())
+			if okAll && len(leaves) >= 2 && len(leaves) <= 4 {
+				var ss []*State
+				var vs []Value
+				for _, lf := range leaves {
+					id := int(lf.v.args[0].ival.Int64())
+					if id < 1 || id > len(c.e.typeByID) {
+						okAll = false
+						break
+					}
+					dt := c.e.typeByID[id-1]
+					m := c.e.Prog.LookupMethod(dt, cc.Method.Pkg(), cc.Method.Name())
+					if m == nil {
+						okAll = false
+						break
+					}
+					sk := st.clone()
+					c.assume(sk, lf.guard)
+					var rv Value
+					switch dt.Underlying().(type) {
+					case *types.Pointer, *types.Map, *types.Chan:
+						rv = lf.v.args[1]
+					default:
+						srt, _ := c.sortOf(dt)
+						rv = c.unbox(lf.v.args[1], srt)
+					}
+					a2 := append([]Value{rv}, args[1:]...)
+					vs = append(vs, fr.staticCall(x, m, a2, nil, sk, pos))
+					ss = append(ss, sk)
+				}
+				if okAll {
+					merged := c.mergeStates(ss, fr.baseR)
+					res := c.mergeValues(ss, vs, "devirtualised call "+key)
+					*st = *merged
+					return res
+				}
+			}
+		}
+		if ct := c.e.Contracts.ByKey[key]; ct != nil {
+			if rt, ok := recv.(*Term); ok {
+				c.oblige(st, "nil", c.f.Not(c.f.Eq(c.f.IfTyp(rt), c.f.Int(0))), pos, "method call on nil interface")
+			}
+			return c.byContract(ct, cc.Signature(), args, st, pos)
 		}
 		c.unsupported("interface method call %s without contract at %s", key, pos)
 		return c.havocResults(st, cc.Signature().Results(), cc.Method.Name())
@@ -422,7 +483,11 @@ func (c *FnCtx) collectAssigns(ct *Contract, args []Value, st *State) []assignLo
 	c.asgOut = saved
 	if c.asgCond != nil {
 		for i := range out {
-			out[i].cond = c.asgCond
+			if out[i].cond != nil {
+				out[i].cond = c.f.And(c.asgCond, out[i].cond)
+			} else {
+				out[i].cond = c.asgCond
+			}
 		}
 	}
 	return out
@@ -743,7 +808,20 @@ func (fr *frame) vspecIntrinsic(x *ssa.Call, name string, fn *ssa.Function, args
 			c.unsupported("quantifier body is not a function literal at %s", pos)
 			return f.Fresh("q", SBool), true
 		}
-		i := f.BoundVar("i", SInt)
+		// old(...) under the binder: the recording pass and the replay pass must use the same bound variable
+		var i *Term
+		switch c.oldMode {
+		case 1:
+			i = f.BoundVar("i", SInt)
+			c.oldBinders[x] = i
+		case 2:
+			if bv := c.oldBinders[x]; bv != nil {
+				i = bv
+			}
+		}
+		if i == nil {
+			i = f.BoundVar("i", SInt)
+		}
 		tmp := st.clone()
 		tmp.P = f.True()
 		c.ghost++
@@ -830,6 +908,35 @@ func (fr *frame) vspecIntrinsic(x *ssa.Call, name string, fn *ssa.Function, args
 				c.declareHeapKey(memKey(seq), seq)
 				*c.asgOut = append(*c.asgOut, assignLoc{key: memKey(seq), ref: p, region: true, lo: f.Int(0), hi: f.Int(arr.Len())})
 			}
+		}
+		return nil, true
+	case "AssignsObject":
+		if c.asgOut == nil {
+			return nil, true
+		}
+		iv, ok := args[0].(*Term)
+		if !ok || iv.sort != SIf {
+			c.unsupported("object(...) in assigns needs an interface value at %s", pos)
+			return nil, true
+		}
+		it, _ := x.Call.Args[0].Type().Underlying().(*types.Interface)
+		if it == nil {
+			c.unsupported("object(...) in assigns needs an interface-typed expression at %s", pos)
+			return nil, true
+		}
+		// closed world: the dynamic type is a pointer to a struct type declared in the module
+		for _, nt := range c.e.moduleStructs() {
+			pt := types.NewPointer(nt)
+			if !types.Implements(pt, it) {
+				continue
+			}
+			si := c.structInfoOf(nt)
+			if si == nil {
+				continue
+			}
+			ref := f.IfVal(iv)
+			cond := f.Eq(f.IfTyp(iv), f.Int(int64(c.e.TypeID(pt))))
+			*c.asgOut = append(*c.asgOut, assignLoc{whole: true, ref: ref, hi: f.Add(ref, f.Int(int64(si.size))), si: si, styp: nt, cond: cond})
 		}
 		return nil, true
 	case "AssignsElems", "AssignsSpare":
